@@ -38,10 +38,19 @@ fn main() {
 }
 
 fn report_violation(cfg: &RunCfg, v: Violation, stats: &Stats, t0: std::time::Instant) -> i32 {
+    let sig = violation_signature(&v.replay);
+    if let Some((_, what)) = known_findings(&cfg.id).into_iter().find(|(s, _)| *s == sig) {
+        // a listed finding: reported, not an alarm (DESIGN.md §3.7)
+        println!("KNOWN-FINDING: property={} {} ({})", cfg.id, what, sig);
+        let info = EvidenceInfo { rule: &special::rule(&cfg.id), assumptions: special::assumptions(&cfg.id), exhaustive: false, extra: json!({"known_finding": sig}) };
+        write_evidence(cfg, stats, &info, t0.elapsed().as_secs_f64(), 0);
+        return 0;
+    }
+    println!("signature={}", sig);
     let path = write_replay(&cfg.id, &v.replay);
     println!("{}: {}", v.fail.clause, v.fail.detail);
     println!("VIOLATION property={} replay={}", cfg.id, path.display());
-    let info = EvidenceInfo { rule: registry::rule(&cfg.id), assumptions: special::assumptions(&cfg.id), exhaustive: false, extra: json!({"violation": v.replay}) };
+    let info = EvidenceInfo { rule: &special::rule(&cfg.id), assumptions: special::assumptions(&cfg.id), exhaustive: false, extra: json!({"violation": v.replay}) };
     write_evidence(cfg, stats, &info, t0.elapsed().as_secs_f64(), 1);
     1
 }
@@ -60,7 +69,7 @@ fn check(cfg: &RunCfg) -> i32 {
                 Ok(Some(fail)) => {
                     println!("{}: {}", fail.clause, fail.detail);
                     println!("VIOLATION property={} replay={}", cfg.id, f.display());
-                    let info = EvidenceInfo { rule: registry::rule(&cfg.id), assumptions: special::assumptions(&cfg.id), exhaustive: false, extra: json!({"violation_replay": f.display().to_string()}) };
+                    let info = EvidenceInfo { rule: &special::rule(&cfg.id), assumptions: special::assumptions(&cfg.id), exhaustive: false, extra: json!({"violation_replay": f.display().to_string()}) };
                     write_evidence(cfg, &stats, &info, t0.elapsed().as_secs_f64(), 1);
                     return 1;
                 }
